@@ -28,6 +28,7 @@ import (
 	"github.com/ethereum/go-ethereum/common"
 	"github.com/ethereum/go-ethereum/core/tracing"
 	"github.com/ethereum/go-ethereum/core/types"
+	"github.com/ethereum/go-ethereum/core/types/bal"
 	"github.com/ethereum/go-ethereum/crypto"
 	"github.com/ethereum/go-ethereum/internal/verif/mc"
 	"github.com/ethereum/go-ethereum/params"
@@ -427,6 +428,8 @@ type c13Sys struct {
 	// re-applied without it. The prefix was fully observed when it was itself the new transition, so the
 	// (expensive) getter sweep is only made for armed applications. c13Observed/c13Applied guard the wiring.
 	armed bool
+	// lastBAL is the value returned by the last Finalise (used by the C15 harness, which builds on this system).
+	lastBAL *bal.ConstructionBlockAccessList
 }
 
 var c13Observed, c13Armed atomic.Int64
@@ -436,7 +439,7 @@ func c13NewSys(r *mc.R, ru *c13Rules, base *c13Base, ops []c13Op) *c13Sys {
 	if err != nil {
 		panic(err)
 	}
-	x := &c13Sys{r: r, ru: ru, ops: ops, s: s, m: c13NewModel(ru, base.accts)}
+	x := &c13Sys{r: r, ru: ru, ops: ops, s: s, m: c13NewModel(ru, base.accts), last: "initial"}
 	// transaction 0 starts
 	x.startTx()
 	return x
@@ -605,7 +608,7 @@ func (x *c13Sys) apply(i int) error {
 	case c13kEndTx, c13kEndTxRoot:
 		var got common.Hash
 		if o.kind == c13kEndTx {
-			s.Finalise(x.ru.rules)
+			x.lastBAL = s.Finalise(x.ru.rules)
 		} else {
 			got = s.IntermediateRoot(x.ru.rules)
 		}
@@ -946,6 +949,40 @@ func c13AuxOps() []c13Op {
 	}
 }
 
+// c13DeepOps: everything that can happen to one account, for longer histories.
+func c13DeepOps(a int, wide bool) []c13Op {
+	ops := []c13Op{
+		{kind: c13kAddBal, a: a, v: 0},
+		{kind: c13kAddBal, a: a, v: 1},
+		{kind: c13kSubBal, a: a, v: 1},
+		{kind: c13kSetNonce, a: a, v: 1},
+		{kind: c13kSetCode, a: a, v: 2},
+		{kind: c13kSetState, a: a, s: 0, v: 1},
+		{kind: c13kSetState, a: a, s: 0, v: 0},
+		{kind: c13kCreateContract, a: a},
+		{kind: c13kSelfDestruct, a: a},
+	}
+	if wide {
+		ops = append(ops,
+			c13Op{kind: c13kSetNonce, a: a, v: 0},
+			c13Op{kind: c13kSetCode, a: a, v: 0},
+			c13Op{kind: c13kSetState, a: a, s: 1, v: 0},
+			c13Op{kind: c13kSetState, a: a, s: 1, v: 1},
+			c13Op{kind: c13kCreateAccount, a: a},
+			c13Op{kind: c13kGetState, a: a, s: 0},
+			c13Op{kind: c13kRevert, v: 2},
+		)
+	}
+	return append(ops,
+		c13Op{kind: c13kSnapshot},
+		c13Op{kind: c13kRevert, v: 0},
+		c13Op{kind: c13kRevert, v: 1},
+		c13Op{kind: c13kEndTx},
+		c13Op{kind: c13kEndTxRoot},
+		c13Op{kind: c13kReadAll},
+	)
+}
+
 func c13Names(ops []c13Op) []string {
 	out := make([]string, len(ops))
 	for i, o := range ops {
@@ -954,13 +991,13 @@ func c13Names(ops []c13Op) []string {
 	return out
 }
 
-// start states: empty; "contract": A = contract with code, nonce, balance and slot
-// s0, R = empty account left over from before EIP-158; "funded": A = balance-only
-// (pre-funded address), B = contract with two slots and zero balance.
+// start states (committed with pre-EIP-158 rules, so empty accounts can exist):
+// "contract": A = contract with code, nonce, balance and both slots set, B and R = empty accounts left over from
+// before EIP-158; "funded": A = balance-only (pre-funded address), B and R absent; "empty": nothing.
 var c13Starts = map[string]map[int]c13Acct{
 	"empty":    {},
-	"contract": {c13A: {nonce: 1, bal: 1, code: 1, stor: [2]uint8{1, 0}}, c13R: {}},
-	"funded":   {c13A: {bal: 2}, c13B: {nonce: 1, code: 1, stor: [2]uint8{1, 2}}},
+	"contract": {c13A: {nonce: 1, bal: 1, code: 1, stor: [2]uint8{1, 2}}, c13B: {}, c13R: {}},
+	"funded":   {c13A: {bal: 2}},
 }
 
 func c13Explore(r *mc.R, family string, ru *c13Rules, start string, ops []c13Op, depth int) {
@@ -976,6 +1013,8 @@ func c13Explore(r *mc.R, family string, ru *c13Rules, start string, ops []c13Op,
 		}
 		return nil
 	})
+	before := c13Observed.Load()
+	defer func() { r.Bound(fmt.Sprintf("%s/%s/%s.transitions", family, ru.name, start), c13Observed.Load()-before) }()
 	r.Explore(mc.Config{
 		Name:  fmt.Sprintf("%s/%s/%s", family, ru.name, start),
 		Ops:   c13Names(ops),
@@ -1009,12 +1048,43 @@ func TestVerif_C13(t *testing.T) {
 				r.Violation("harness-wiring", fmt.Sprintf("only %d of %d new transitions were observed", c13Observed.Load(), c13Armed.Load()), nil)
 			}
 		}()
-		depth := mc.Pick(r, 4, 5)
-		r.Bound("acct_depth", depth)
-		for i := range c13RuleSets {
-			ru := &c13RuleSets[i]
+		pre158, berlin, amsterdam := &c13RuleSets[0], &c13RuleSets[1], &c13RuleSets[2]
+		if r.Quick() {
+			r.Bound("acct_depth", 4)
+			r.Bound("deep_depth", 5)
+			r.Bound("aux_depth", 4)
+			// breadth: two accounts + RIPEMD, all account operations
+			c13Explore(r, "acct", pre158, "contract", c13AcctOps(false), 4)
+			c13Explore(r, "acct", berlin, "contract", c13AcctOps(false), 4)
+			c13Explore(r, "acct", amsterdam, "funded", c13AcctOps(false), 4)
+			// depth: one account, longer histories (journal counters, snapshot stacks, several transactions)
+			c13Explore(r, "deepB", berlin, "contract", c13DeepOps(c13B, false), 5)
+			c13Explore(r, "deepA", amsterdam, "funded", c13DeepOps(c13A, false), 5)
+			// refund, logs, transient storage, access list under snapshots
+			c13Explore(r, "aux", berlin, "contract", c13AuxOps(), 4)
+			return
+		}
+		r.Bound("acct_depth", 5)
+		r.Bound("acct_wide_depth", 4)
+		r.Bound("deep_depth", 7)
+		r.Bound("aux_depth", 6)
+		for _, ru := range []*c13Rules{pre158, berlin, amsterdam} {
+			for _, start := range []string{"contract", "funded", "empty"} {
+				c13Explore(r, "acctwide", ru, start, c13AcctOps(true), 4)
+			}
+			c13Explore(r, "aux", ru, "contract", c13AuxOps(), 6)
+			c13Explore(r, "deepB", ru, "contract", c13DeepOps(c13B, false), 7)
+			c13Explore(r, "deepA", ru, "contract", c13DeepOps(c13A, false), 7)
+			c13Explore(r, "deepA", ru, "funded", c13DeepOps(c13A, false), 7)
+			c13Explore(r, "deepBwide", ru, "contract", c13DeepOps(c13B, true), 5)
+			c13Explore(r, "deepAwide", ru, "funded", c13DeepOps(c13A, true), 5)
+		}
+		for _, ru := range []*c13Rules{pre158, berlin, amsterdam} {
 			for _, start := range []string{"contract", "funded"} {
-				c13Explore(r, "acct", ru, start, c13AcctOps(false), depth)
+				if r.Expired() {
+					return
+				}
+				c13Explore(r, "acct", ru, start, c13AcctOps(false), 5)
 			}
 		}
 	})
